@@ -522,7 +522,45 @@ def run_real(case, sroot, droot):
         sys.setswitchinterval(old_si)
 
 
+TOUCHED = []   # ids of the source jobs in the order the last real project-level call got to them
+
+
 def _run_real_inner(case, sroot, droot):
+    """One call of the real entry point; the order in which a project-level sync gets to the source jobs (an
+    implementation detail the model takes as INPUT) is recorded by spies around Project.clone and sync_jobs."""
+    import signac
+    from signac import sync as S
+
+    del TOUCHED[:]
+    orig_clone, orig_sj = signac.Project.clone, S.sync_jobs
+
+    def clone_spy(self, job, *a, **k):
+        TOUCHED.append(job.id)
+        return orig_clone(self, job, *a, **k)
+
+    def sj_spy(src, dst, *a, **k):
+        TOUCHED.append(src.id)
+        return orig_sj(src, dst, *a, **k)
+    project_level = case["entry"] in ("Project.sync", "sync_projects")
+    if project_level:
+        signac.Project.clone, S.sync_jobs = clone_spy, sj_spy
+    try:
+        return _run_real_inner2(case, sroot, droot)
+    finally:
+        signac.Project.clone, S.sync_jobs = orig_clone, orig_sj
+
+
+def observed_order(listing):
+    """the listing order of the source jobs, re-arranged so that the jobs the real call got to come first, in the
+    order it got to them"""
+    seen = []
+    for i in TOUCHED:
+        if i in listing and i not in seen:
+            seen.append(i)
+    return seen + [i for i in listing if i not in seen]
+
+
+def _run_real_inner2(case, sroot, droot):
     """One call of the real entry point on the projects at sroot / droot.
     Returns (outcome, payload): outcome 'ok' or the exception kind."""
     import filecmp
@@ -851,21 +889,23 @@ def observe(case, ctx, second_run=True, twin_opts=None):
             build_project(tsd, case["src"])
             build_project(tdd, case["dst"])
         o.s0, o.d0 = snapshot(sd), snapshot(dd)
-        o.order = src_iteration_order(sd)
+        o.listing = src_iteration_order(sd)
         o.init_sha = None
         if case["entry"] in ("Job.sync", "sync_jobs"):
             o.init_sha = init_sp_sha(ctx, case["pair"][1])
-        o.line1, o.cids1 = model_line(case, o.s0, o.d0, o.order, o.init_sha)
         o.kind1, o.payload1, o.stdout1 = run_real(case, sd, dd)
         o.asked1 = list(LAST_ASKED)
+        o.order = observed_order(o.listing)
+        o.line1, o.cids1 = model_line(case, o.s0, o.d0, o.order, o.init_sha)
         o.s1, o.d1 = snapshot(sd), snapshot(dd)
         o.impl1 = outcome_text(o.kind1, o.payload1) + ";" + render_tree(o.d1, o.cids1) + ";log-ok"
         o.second = False
         if second_run:
             o.second = True
-            o.order2 = src_iteration_order(sd)
-            o.line2, o.cids2 = model_line(case, o.s1, o.d1, o.order2, o.init_sha)
+            listing2 = src_iteration_order(sd)
             o.kind2, o.payload2, _ = run_real(case, sd, dd)
+            o.order2 = observed_order(listing2)
+            o.line2, o.cids2 = model_line(case, o.s1, o.d1, o.order2, o.init_sha)
             o.s2, o.d2 = snapshot(sd), snapshot(dd)
             o.impl2 = outcome_text(o.kind2, o.payload2) + ";" + render_tree(o.d2, o.cids2) + ";log-ok"
         o.twin = None
@@ -876,7 +916,7 @@ def observe(case, ctx, second_run=True, twin_opts=None):
             same_start = strip_times(snapshot(tsd)) == strip_times(o.s0) and strip_times(snapshot(tdd)) == strip_times(o.d0)
             k, p, _ = run_real(tcase, tsd, tdd)
             o.twin = {"kind": k, "payload": p, "s": snapshot(tsd), "d": snapshot(tdd), "case": tcase,
-                      "same_order": torder == o.order, "same_start": same_start}
+                      "same_order": torder == o.listing, "same_start": same_start}
         return o
     finally:
         for d in dirs:
